@@ -1,15 +1,15 @@
 package tsrun
 
 import (
-	"context"
-	"time"
 	"bufio"
+	"context"
 	_ "embed"
 	"encoding/json"
 	"fmt"
 	"os"
 	"os/exec"
 	"path/filepath"
+	"time"
 
 	"verifharness/evid"
 	"verifharness/gen/rt"
